@@ -150,7 +150,9 @@ A_SHUTDOWN_TRASH = "HostConnection.shutdown:trashed-connections-not-closed"
 B_PUBLISH_AFTER_SHUTDOWN = "HostConnection._replace:publishes-new-connection-after-shutdown"
 C_DEAD_OLD_CLEARS_CURRENT = "HostConnection.return_connection:dead-old-connection-clears-current"
 D_RETIRE_AFTER_SHUTDOWN = "HostConnection._replace:old-connection-kept-open-after-shutdown"
-LEAK_SIGNATURES = (A_SHUTDOWN_TRASH, B_PUBLISH_AFTER_SHUTDOWN, C_DEAD_OLD_CLEARS_CURRENT, D_RETIRE_AFTER_SHUTDOWN)
+E_REPLACE_NOT_CURRENT = "HostConnection.borrow_connection:replace-submitted-for-a-connection-that-is-no-longer-current"
+LEAK_SIGNATURES = (A_SHUTDOWN_TRASH, B_PUBLISH_AFTER_SHUTDOWN, C_DEAD_OLD_CLEARS_CURRENT, D_RETIRE_AFTER_SHUTDOWN,
+                   E_REPLACE_NOT_CURRENT)
 
 
 def establish_keyspace(session, nodes, keyspace):
@@ -228,6 +230,7 @@ class PoolHarness:
         self.futures = {}
         self.started = set()
         self.pick = {}
+        self.marking = set()        # borrowers parked between reading _connection and the pool lock
         self.tphase = None          # phase of the running _replace thread: open / publish / retire
         self.tname = None
         self.tcount = 0
@@ -297,14 +300,27 @@ class PoolHarness:
             raise HarnessRefusal("request %s already started" % r)
         self.sched.spawn("C%d" % r, self._client, r)
         self.started.add(r)
-        lab = self._run("C%d" % r, lambda l: l.startswith("acq:conn") and l.endswith("@borrow_connection"))
-        if lab != "end":
+        # the first lock borrow_connection goes for: the pool lock (threshold reached) or the picked connection's
+        lab = self._run("C%d" % r, lambda l: l.startswith("acq:") and l.endswith("@borrow_connection"))
+        if lab.startswith("acq:pool"):
+            cur = self.pool._connection          # what _get_connection() just returned to the parked borrower
+            self.pick[r] = self.conns.index(cur) + 1 if cur in self.conns else -1
+            self.marking.add(r)
+        elif lab != "end":
             self.pick[r] = int(lab[len("acq:conn"):lab.index("@")])
+
+    def act_BorrowMark(self, a):
+        r = a["r"]
+        t = self.sched.threads.get("C%d" % r)
+        if t is None or t.done or r not in self.marking:
+            raise HarnessRefusal("request %s is not waiting for the pool lock in borrow_connection" % r)
+        self._run("C%d" % r, lambda l: l.startswith("acq:conn") and l.endswith("@borrow_connection"))
+        self.marking.discard(r)
 
     def act_BorrowTake(self, a):
         r = a["r"]
         t = self.sched.threads.get("C%d" % r)
-        if t is None or t.done or r in self.took:
+        if t is None or t.done or r in self.took or r in self.marking:
             raise HarnessRefusal("request %s is not between pick and take" % r)
         self._run("C%d" % r, lambda l: r in self.took and l.startswith("rel:conn") and l.endswith("@borrow_connection"))
         self.pick.pop(r, None)
@@ -318,6 +334,8 @@ class PoolHarness:
         self._finish("C%d" % r)
 
     def _pending(self, c, q):
+        if not 1 <= c <= len(self.conns):
+            raise HarnessRefusal("the pool has opened %d connections, there is no connection %s" % (len(self.conns), c))
         conn = self.conns[c - 1]
         cands = [p for p in self.node.pending if p.conn is conn and p.req.get("query") == "SELECT %d" % q]
         if len(cands) != 1:
@@ -421,7 +439,7 @@ class PoolHarness:
             self.tphase = None
         elif signature == D_RETIRE_AFTER_SHUTDOWN:
             self.conns[info["old"] - 1].close()
-        elif signature == C_DEAD_OLD_CLEARS_CURRENT:
+        elif signature in (C_DEAD_OLD_CLEARS_CURRENT, E_REPLACE_NOT_CURRENT):
             self.pool._connection = self.conns[info["cur"] - 1] if info["cur"] else None
             if not info["queued"]:
                 for t in self.replace_tasks():
@@ -476,7 +494,7 @@ class PoolHarness:
             t = self.sched.threads["C%d" % r]
             f = self.futures.get(r)
             if not t.done or f is None:
-                st[r] = "borrowed" if r in self.took else "picked"
+                st[r] = "borrowed" if r in self.took else ("marking" if r in self.marking else "picked")
                 continue
             e = f._final_exception
             if e is not None:
@@ -566,6 +584,9 @@ def classify(act, prev, post, d):
         c = d.get("closed")
         return c is not None and any(c["spec"][i] and not c["code"][i] for i in among)
 
+    if name == "BorrowMark" and pv["on"][act["r"]] != pv["cur"] and not pv["replacing"] and \
+            ("queued" in d or "replacing" in d) and d.get("queued", {"code": 1})["code"] == 1:
+        return E_REPLACE_NOT_CURRENT
     if name == "ShutdownCloseTrash" and spec_closed_code_open(pv["trash"]):
         return A_SHUTDOWN_TRASH
     if name in ("ConnFails", "Send") and act["f"] and not pv["shutdown"] and spec_closed_code_open(pv["trash"]):
@@ -685,6 +706,8 @@ def record(constants, rng, max_events=60, p_fail=0.08, p_shutdown=0.08):
                 if r not in h.started:
                     if not (staggered and busy and rng.random() < 0.85):
                         ops += [{"e": "BorrowStart", "r": r}] * 2
+                elif not t.done and r in h.marking:
+                    ops += [{"e": "BorrowMark", "r": r}] * 2
                 elif not t.done and r not in h.took:
                     ops += [{"e": "BorrowTake", "r": r}] * 2
                 elif not t.done:
@@ -765,6 +788,8 @@ def classify_event(ev, before):
     if before is None:
         return "trace:%s" % e
     trash_open = [c for c in before["trash"] if not before["closed"][c - 1]]
+    if e == "BorrowMark" and before["on"][ev["r"] - 1] != before["cur"] and not before["replacing"]:
+        return E_REPLACE_NOT_CURRENT
     if e == "ShutdownCloseTrash" and trash_open:
         return A_SHUTDOWN_TRASH
     if e in ("ConnFails", "Send") and ev.get("f") and not before["shutdown"] and trash_open:
